@@ -8,6 +8,8 @@ cd "$(dirname "$0")"
 /venv/bin/python harness/extract_algebraic.py
 /venv/bin/python harness/extract_quadpack.py
 /venv/bin/python harness/extract_quadpack_adaptive.py
+/venv/bin/python harness/translate_py.py
+/venv/bin/python harness/translate_f90.py
 cd lean
 lake build driver
 lake build BezierVerif
